@@ -1,8 +1,12 @@
+#![recursion_limit = "512"]
 #![allow(clippy::too_many_arguments, clippy::type_complexity)]
 
+mod campaign;
 mod convert;
+mod crash;
 mod driver;
 mod env;
+mod evidence;
 mod exec;
 mod fin;
 mod r#gen;
@@ -10,74 +14,199 @@ mod heap;
 mod lang;
 mod model;
 mod obs;
+mod profiles;
 mod run;
+mod templates;
 
 #[global_allocator]
 static ALLOC: obs::TrackAlloc = obs::TrackAlloc;
 
-use proptest::test_runner::{Config, RngAlgorithm, TestCaseError, TestError, TestRng, TestRunner};
+use std::time::Instant;
+
+pub fn root_dir() -> String {
+    std::env::var("GCVERIF_ROOT").unwrap_or_else(|_| "/verif".to_string())
+}
+
+pub fn seed() -> u64 {
+    std::env::var("VERIF_SEED").ok().and_then(|s| s.trim().parse::<i64>().ok()).map(|v| v as u64).unwrap_or(1)
+}
 
 fn main() {
     obs::install_panic_hook();
     let args: Vec<String> = std::env::args().collect();
-    match args.get(1).map(|s| s.as_str()) {
-        Some("smoke") => {
-            let cases: u32 = args.get(2).and_then(|s| s.parse().ok()).unwrap_or(1000);
-            let seed: u64 = args.get(3).and_then(|s| s.parse().ok()).unwrap_or(1);
-            smoke(cases, seed);
+    let code = match args.get(1).map(|s| s.as_str()) {
+        Some("worker") => worker(&args[2], &args[3], args.get(4).map(|s| s.as_str()).unwrap_or("rel")),
+        Some("replay") => replay(&args[2]),
+        Some("gen") => {
+            // print a few generated cases of a profile (debugging aid)
+            let plan = profiles::plan(&args[2]).expect("history property");
+            let n: usize = args.get(3).and_then(|s| s.parse().ok()).unwrap_or(3);
+            use proptest::strategy::{Strategy, ValueTree};
+            let mut runner = proptest::test_runner::TestRunner::deterministic();
+            let s = campaign::strategy(&plan, &templates::prefixes(&args[2]), plan.profile.max_steps);
+            for _ in 0..n {
+                println!("{}", s.new_tree(&mut runner).unwrap().current().to_json());
+            }
+            0
         }
-        Some("replay") => {
-            let s = std::fs::read_to_string(&args[2]).unwrap();
-            let case = lang::Case::from_json(&s).unwrap();
-            let r = driver::run_case(&case, exec::ExecOpts { hook: true, ..Default::default() });
-            println!("{:#?}", r.violations);
-            println!("{:#?}", r.internal);
+        _ => {
+            eprintln!("usage: gcverif worker <Cxx> <quick|thorough> [build-tag] | replay <file> | gen <Cxx> [n]");
+            2
         }
-        _ => eprintln!("usage"),
+    };
+    std::process::exit(code);
+}
+
+fn threads() -> usize {
+    std::env::var("GCVERIF_THREADS").ok().and_then(|s| s.parse().ok()).unwrap_or_else(|| std::thread::available_parallelism().map(|n| n.get()).unwrap_or(8).min(16))
+}
+
+fn worker(prop: &str, tier: &str, tag: &str) -> i32 {
+    let t0 = Instant::now();
+    let root = root_dir();
+    let Some(plan) = profiles::plan(prop) else {
+        eprintln!("gcverif: {prop} is not decided by the history engine");
+        return 2;
+    };
+    let seed = seed();
+    let thorough = tier == "thorough";
+    let _ = std::fs::create_dir_all(format!("{root}/failures"));
+    crash::install(&format!("{root}/failures/{prop}-crash-{tag}.json"));
+    let _ = std::fs::remove_file(format!("{root}/failures/{prop}-crash-{tag}.json"));
+
+    let mut total = campaign::CampaignResult::default();
+    // 1. directed templates and the regression corpus
+    let mut fixed: Vec<(String, lang::Case)> = templates::cases(prop);
+    for dir in [format!("{root}/corpus/regress/{prop}"), format!("{root}/corpus/seed")] {
+        if let Ok(rd) = std::fs::read_dir(&dir) {
+            let mut names: Vec<_> = rd.filter_map(|e| e.ok()).map(|e| e.path()).filter(|p| p.extension().map(|x| x == "json").unwrap_or(false)).collect();
+            names.sort();
+            for p in names {
+                if let Ok(s) = std::fs::read_to_string(&p) {
+                    match evidence::case_from_file_text(&s) {
+                        Ok(c) => fixed.push((p.display().to_string(), c)),
+                        Err(e) => eprintln!("gcverif: cannot parse {}: {e}", p.display()),
+                    }
+                }
+            }
+        }
+    }
+    let n_fixed = fixed.len();
+    campaign::run_fixed(&plan, &fixed, &mut total);
+
+    // 2. random campaign
+    if total.failure.is_none() && total.internal.is_empty() {
+        let cases = std::env::var("GCVERIF_CASES").ok().and_then(|s| s.parse().ok()).unwrap_or(if thorough { plan.cases_thorough } else { plan.cases_quick });
+        let prefixes = templates::prefixes(prop);
+        let max_steps = if thorough { (plan.profile.max_steps * 5 / 2).min(150) } else { plan.profile.max_steps };
+        if thorough {
+            // half the budget on short histories (dense in small interleavings), half on long ones
+            let r1 = campaign::run(&plan, cases / 2, seed, 1, &prefixes, plan.profile.max_steps, threads());
+            merge(&mut total, r1);
+            if total.failure.is_none() && total.internal.is_empty() {
+                let r2 = campaign::run(&plan, cases / 2, seed, 2, &prefixes, max_steps, threads());
+                merge(&mut total, r2);
+            }
+        } else {
+            let r = campaign::run(&plan, cases, seed, 0, &prefixes, max_steps, threads());
+            merge(&mut total, r);
+        }
+    }
+    let wall = t0.elapsed().as_secs_f64();
+
+    // 3. report
+    let mut code = 0;
+    let mut violations = 0;
+    if !total.internal.is_empty() {
+        eprintln!("gcverif: INTERNAL ERROR (cannot decide): {}", total.internal[0]);
+        code = 2;
+    }
+    if let Some(f) = &total.failure {
+        violations = 1;
+        let path = evidence::write_failure(&root, prop, &f.case, &f.violation);
+        println!("violated oracle: {} {} — {}", f.violation.prop, f.violation.tag, f.violation.msg);
+        println!("minimal history ({} steps): {}", f.case.steps.len(), f.case.to_json());
+        println!("VIOLATION property={prop} replay={path}");
+        code = 1;
+    }
+    let nt = total.nontrivial.len() as u64;
+    if code == 0 && nt < 2 {
+        eprintln!("gcverif: only {nt} non-trivial cases were generated for {prop}: cannot decide");
+        code = 2;
+    }
+    let samples: Vec<serde_json::Value> = total.samples.iter().filter_map(|s| serde_json::from_str(s).ok()).collect();
+    let mut cov = serde_json::json!({
+        "evaluations": total.evaluations,
+        "distinct_nontrivial": nt,
+        "rule": plan.rule,
+        "samples": samples,
+        "exhaustive": false,
+        "fixed_cases_replayed_first": n_fixed,
+        "build": tag,
+        "threads": threads(),
+        "classes": total.cov.to_json(),
+        "violations_of_other_properties_seen_and_ignored_here": total.other_prop,
+    });
+    if samples.is_empty() {
+        cov["samples"] = serde_json::json!([{"note": "no non-trivial case generated"}]);
+    }
+    evidence::write_part(&root, prop, tier, seed, tag, cov, plan.assumptions, wall, violations);
+    println!("{prop} {tier} [{tag}]: {} histories, {} distinct non-trivial, {:.1}s, exit {code}", total.evaluations, nt, wall);
+    code
+}
+
+fn merge(into: &mut campaign::CampaignResult, r: campaign::CampaignResult) {
+    into.evaluations += r.evaluations;
+    into.cov.merge(&r.cov);
+    into.nontrivial.extend(r.nontrivial);
+    for s in r.samples {
+        if into.samples.len() < 3 {
+            into.samples.push(s);
+        }
+    }
+    for (k, v) in r.other_prop {
+        *into.other_prop.entry(k).or_insert(0) += v;
+    }
+    into.internal.extend(r.internal);
+    if into.failure.is_none() {
+        into.failure = r.failure;
     }
 }
 
-fn smoke(cases: u32, seed: u64) {
-    let p = r#gen::Profile::base("smoke");
-    let strat = r#gen::case_strategy(&p);
-    let mut seed_bytes = [0u8; 32];
-    seed_bytes[..8].copy_from_slice(&seed.to_le_bytes());
-    let rng = TestRng::from_seed(RngAlgorithm::ChaCha, &seed_bytes);
-    let mut runner = TestRunner::new_with_rng(Config { cases, failure_persistence: None, max_shrink_iters: 2000, ..Config::default() }, rng);
-    let opts = exec::ExecOpts { hook: true, ..Default::default() };
-    let n = std::cell::Cell::new(0u64);
-    let agg = std::cell::RefCell::new(exec::Cov::default());
-    let res = runner.run(&strat, |case| {
-        n.set(n.get() + 1);
-        let mut agg = agg.borrow_mut();
-        let r = driver::run_case(&case, opts);
-        agg.adoptions += r.cov.adoptions;
-        agg.cycles_completed += r.cov.cycles_completed;
-        for i in 0..4 {
-            agg.adopt_active[i] += r.cov.adopt_active[i];
-            agg.phase_seen[i] += r.cov.phase_seen[i];
+fn replay(path: &str) -> i32 {
+    let s = match std::fs::read_to_string(path) {
+        Ok(s) => s,
+        Err(e) => {
+            eprintln!("cannot read {path}: {e}");
+            return 2;
         }
-        agg.ops += r.cov.ops;
-        agg.ops_skipped += r.cov.ops_skipped;
-        agg.settles += r.cov.settles;
-        if !r.internal.is_empty() {
-            return Err(TestCaseError::fail(format!("INTERNAL {:?}", r.internal)));
+    };
+    let prop = evidence::prop_from_file_text(&s);
+    let case = match evidence::case_from_file_text(&s) {
+        Ok(c) => c,
+        Err(e) => {
+            eprintln!("cannot parse {path}: {e}");
+            return 2;
         }
-        if let Some(v) = r.violations.first() {
-            return Err(TestCaseError::fail(format!("{} {} {}", v.prop, v.tag, v.msg)));
-        }
-        Ok(())
-    });
-    let agg = agg.borrow();
-    let n = n.get();
-    println!("ran {n} cases; adoptions {} active {:?} phases {:?} cycles {} ops {} skipped {} settles {}", agg.adoptions, agg.adopt_active, agg.phase_seen, agg.cycles_completed, agg.ops, agg.ops_skipped, agg.settles);
-    match res {
-        Ok(()) => println!("OK"),
-        Err(TestError::Fail(reason, case)) => {
-            println!("FAIL: {reason}");
-            println!("{}", case.to_json());
-            std::fs::write("/tmp/smoke_fail.json", case.to_json()).unwrap();
-        }
-        Err(e) => println!("ERR {e}"),
+    };
+    let c09 = prop.as_deref() == Some("C09");
+    let r = driver::run_case(&case, exec::ExecOpts { hook: true, c09, ..Default::default() });
+    println!("history ({} steps): {}", case.steps.len(), case.to_json());
+    for v in &r.violations {
+        println!("oracle {} {} at step {}: {}", v.prop, v.tag, v.step, v.msg);
+    }
+    for i in &r.internal {
+        println!("internal: {i}");
+    }
+    let hit = match &prop {
+        Some(p) => r.violations.iter().any(|v| driver::relevant(p, v)),
+        None => !r.violations.is_empty(),
+    };
+    if hit {
+        println!("VIOLATION property={} replay={path}", prop.unwrap_or_else(|| r.violations[0].prop.to_string()));
+        1
+    } else {
+        println!("no violation reproduced");
+        0
     }
 }
